@@ -7,7 +7,7 @@ from fractions import Fraction
 from common import Result, pmap, compare, enc_value, dec_value, canon_py, Catch, thaw, ERR, ERR_CODES
 
 ID = 'C11'
-COQ_FILES = ['Properties/C11.v', 'Proofs/AggregatesProofs.v', 'Proofs/ValueProofs.v', 'Proofs/MedianOrder.v']
+COQ_FILES = ['Properties/C11.v', 'Proofs/AggregatesProofs.v', 'Proofs/ValueProofs.v', 'Proofs/MedianOrder.v', 'Proofs/AvedevProofs.v']
 TRUSTED = [
     'modelled, not verified: the statistics module (mean, median, mode, (p)variance, harmonic_mean by their textbook '
     'definitions in exact arithmetic), sorted(), sum(), fnmatch on patterns without "[", the criteria regex, Python number '
